@@ -68,7 +68,7 @@ def run(s):
                         rng = s.rng('explicit', idx)
                         txt = vector_ro(rng, n, ed, es, ee)
                         acc.sweep(s, s.load(txt), txt, {'explicit': (es, ee)}, after='initial')
-    nh = 100 if q else 4000
+    nh = 100 if q else 12000
     w = K.kind_weights(1.0, 0.3, 0.3, 0.0)
     for h in range(nh):
         if not s.mine(h):
